@@ -72,7 +72,31 @@ def mwh(binpath, args, timeout=900):
     return out
 
 
+def denull_file(path):
+    """The Json module of the CommunityModules cannot deserialize JSON null: a record of the code under test that carries
+    one (a field a changed contract no longer produces) must not abort the validation - it becomes the string "<null>"."""
+    try:
+        if b"null" not in open(path, "rb").read():
+            return
+    except OSError:
+        return
+    def fix(v):
+        if v is None:
+            return "<null>"
+        if isinstance(v, dict):
+            return {k: fix(x) for k, x in v.items()}
+        if isinstance(v, list):
+            return [fix(x) for x in v]
+        return v
+    lines = [json.dumps(fix(json.loads(l))) for l in open(path) if l.strip()]
+    with open(path, "w") as f:
+        f.write("\n".join(lines) + "\n")
+
+
 def tlc(module, cfg, workdir, env=None, workers=1, timeout=600, extra=None, xmx="4g"):
+    for k in ("TRACE", "TRACE_A", "TRACE_B"):
+        if env and k in env:
+            denull_file(env[k])
     md = os.path.join(workdir, "md-" + os.path.basename(cfg))
     shutil.rmtree(md, ignore_errors=True)
     e = {"JAVA_TOOL_OPTIONS": f"{JAVA_OPTS} -Xmx{xmx}"}
@@ -409,15 +433,15 @@ PLANS = {
                 ["flow_q", "ibc_q", "same_q", "sender_q", "limits_q"], FLOW_EMIT + IBC_EMIT + ["same_t"], W_Q, W_T),
     "C04": plan(["flow_q", "limits_q", "limits1_q", "downrate_q"], FLOW_MC + ["limits_q", "limits1_q", "downrate_q"], ["flow_q", "limits_q", "limits1_q", "downrate_q"],
                 ["flow_extras_t", "flow_t", "limits_q", "limits1_q", "downrate_q", "flow_resume_t"], W_Q, W_T, wide={"quick": [(30, 60, 0)], "thorough": [(300, 80, 0), (300, 80, 1)]}),
-    "C05": plan(["flow_q", "dust_q", "period_q", "long_q"], FLOW_MC + ["dust_q", "flow_deep_t", "period_q", "long_q"], ["flow_q", "dust_q", "period_q", "long_q"],
-                FLOW_EMIT + ["dust_q", "period_q", "long_q"], W_Q, W_T, reach=["Received"], wide={"quick": [(30, 60, 0)], "thorough": [(300, 80, 0), (300, 80, 1)]}, scen=["CROWD"]),
+    "C05": plan(["flow_q", "dust_q", "period_q", "long_q", "batches3_q"], FLOW_MC + ["dust_q", "flow_deep_t", "period_q", "long_q", "batches3_q"], ["flow_q", "dust_q", "period_q", "long_q", "batches3_q"],
+                FLOW_EMIT + ["dust_q", "period_q", "long_q", "batches3_q"], W_Q, W_T, reach=["Received"], wide={"quick": [(30, 60, 0)], "thorough": [(300, 80, 0), (300, 80, 1)]}, scen=["CROWD"]),
     "C06": plan(["flow_q", "period_q", "downrate_q"], FLOW_MC + ["period_q", "downrate_q"], ["flow_q", "period_q", "downrate_q"], FLOW_EMIT + ["period_q", "downrate_q"], W_Q, W_T, reach=["Received"], wide={"quick": [(30, 60, 0)], "thorough": [(300, 80, 0), (300, 80, 1)]}),
     "C07": plan(["ibc_q", "ibc_force_q"], IBC_MC + ["ibc_deep_t", "ibc_force_q"], ["ibc_q", "ibc_force_q"], IBC_EMIT + ["ibc_q", "ibc_force_q"], W_Q, W_T, reach=["Refundable"], scen=["KF2", "REC12", "MIG"]),
     "C08": plan(["gate_q", "own", "gateadmin_t"], GATE_MC + ["own_t"], ["gate_q", "own", "gateadmin_t"], GATE_EMIT + ["own_t"], W_Q, W_T, scen=["MIG"]),
     "C09": plan(["gates_q", "gateadmin_t"], GATE_MC, ["gates_q", "gateadmin_t"], GATE_EMIT, W_Q, W_T, scen=["C09", "MIG"]),
     "C10": plan(["gate_q", "own"], GATE_MC + ["own_t"], ["gate_q", "own"], GATE_EMIT + ["own_t"], W_Q, W_T, scen=["MIG"]),
-    "C11": plan(["flow_q", "flow_treasury_q", "fees_q", "fee150_q", "fee100_q", "zerolst_q"], ["flow_t", "flow_treasury_t", "flow_amounts_t", "fees_t", "fee150_q", "fee100_q", "zerolst_q"],
-                ["flow_treasury_q", "fees_q", "fee150_q", "fee100_q", "zerolst_q"], ["flow_t", "flow_treasury_t", "fees_t", "fee150_q", "fee100_q", "zerolst_q"], W_Q, W_T, scen=["MIG"], wide={"quick": [(30, 60, 0)], "thorough": [(300, 80, 0), (300, 80, 1)]}),
+    "C11": plan(["flow_q", "flow_treasury_q", "fees_q", "fee150_q", "fee100_q", "zerolst_q", "feesfail_q"], ["flow_t", "flow_treasury_t", "flow_amounts_t", "fees_t", "fee150_q", "fee100_q", "zerolst_q", "feesfail_q"],
+                ["flow_treasury_q", "fees_q", "fee150_q", "fee100_q", "zerolst_q", "feesfail_q"], ["flow_t", "flow_treasury_t", "fees_t", "fee150_q", "fee100_q", "zerolst_q", "feesfail_q"], W_Q, W_T, scen=["MIG"], wide={"quick": [(30, 60, 0)], "thorough": [(300, 80, 0), (300, 80, 1)]}),
     "C12": plan(["own"], ["own_t"], ["own"], ["own_t"], [("admin", 10, 60)], [("admin", 150, 70)]),
     "C13": plan(["treasury_q", "flow_treasury_q"], ["treasury_t", "flow_treasury_q"], ["treasury_q", "flow_treasury_q"], ["treasury_t", "flow_treasury_q"], [], [], scen=["TINST"]),
     "C14": plan(["gates_q", "gateadmin_t"], ["gateadmin_t"], ["gateadmin_t"], ["gateadmin_t"], [("admin", 8, 60)], [("admin", 100, 70)]),
